@@ -1,6 +1,7 @@
 import RedisVerif.Driver.C08
 import RedisVerif.Driver.C01
 import RedisVerif.Props.C06
+import RedisVerif.Props.C06Restart
 import RedisVerif.Model.Glue
 
 /-
@@ -8,7 +9,8 @@ import RedisVerif.Model.Glue
     INIT <n> <causal01>                      → ok
     L <i> W <key> <val> <exp|->              → delta <rv> | none      (local op on node i)
     L <i> D <key> | L <i> HW … | L <i> HD …  (same syntax as the C08 driver after the node index)
-    V <j> <idx>                              → ok        (deliver message idx of the history to node j)
+    V <j> <idx>                              → ok        (deliver message idx of the history to node j, its origin included)
+    RESTART <i>                              → ok        (node i comes back empty: Cluster.restart)
     STATE <i>                                → <n> (<key> <rv> ;)*
     CHECK <key>                              → delivered=<b> compat=<K|-> two=<b> agree=<b> agreeexp=<b>   (two = C06.TwoDeltas)
 
@@ -20,6 +22,7 @@ import RedisVerif.Model.Glue
     GR <i> <key> <rv> ;; <dump>              → fresh=<b> | <served keyspace of node i> | -      (ApplyRecoveredState)
     GA <i> ;; <dump>                         → adopt | <dump> | -      (a command outside the model M7 ran on node i: the recorder
                                                ignores it, the model adopts the executor keyspace and keeps the replication state)
+    GZ <i>                                   → ok        (the actor of node i is spawned again, empty: GCluster.restart)
     GS <i>                                   → <n> (<key> <rv> ;)* | <served keyspace> | served=<b>
     GK <key>                                 → delivered=<b> kind=<K|-> agree=<b> reads=<b>
   `<dump>` after `;;` is the IMPLEMENTATION's served keyspace after the step (C01 dump syntax,
@@ -72,6 +75,10 @@ def step (c : Cluster) (line : String) : Cluster × String :=
     match j.toNat?, idx.toNat? with
     | some j, some idx => (c.step (.deliver j idx), "ok")
     | _, _ => (c, "bad-op")
+  | ["RESTART", i] =>
+    match i.toNat? with
+    | some i => (c.restart i, "ok")
+    | none => (c, "bad-op")
   | ["STATE", i] =>
     match i.toNat? with
     | some i =>
@@ -83,7 +90,7 @@ def step (c : Cluster) (line : String) : Cluster × String :=
     match runP (do expect "CHECK"; strKey) line with
     | some k =>
       let comp := match compatK c k with | some K => toString K | none => "-"
-      (c, s!"delivered={b01 (decide (C06.Delivered c k))} compat={comp} two={b01 (decide (C06.TwoDeltas c k))} agree={b01 (agreeB c k)} agreeexp={b01 (agreeExpB c k)}")
+      (c, s!"delivered={b01 (decide (C06.DeliveredAll c k))} compat={comp} two={b01 (decide (C06.TwoDeltas c k))} agree={b01 (agreeB c k)} agreeexp={b01 (agreeExpB c k)}")
     | none => (c, "bad-op")
   | "L" :: i :: _ =>
     match i.toNat? with
@@ -164,6 +171,10 @@ def gstep (g : GCluster) (line : String) : GCluster × String :=
     match n.toNat?, cz.toNat? with
     | some n, some z => (GCluster.init n (z != 0), "ok")
     | _, _ => (g, "bad-op")
+  | ["GZ", i] =>
+    match i.toNat? with
+    | some i => (g.restart i, "ok")
+    | none => (g, "bad-op")
   | ["GS", i] =>
     match i.toNat? with
     | some i =>
@@ -177,7 +188,7 @@ def gstep (g : GCluster) (line : String) : GCluster × String :=
       let c := g.proj
       let kd := match kindK c k with | some K => toString K | none => "-"
       let reads := g.nodes.all fun a => g.nodes.all fun b => servedVal a k == servedVal b k
-      (g, s!"delivered={b01 (decide (C06.Delivered c k))} kind={kd} agree={b01 (agreeB c k)} reads={b01 reads}")
+      (g, s!"delivered={b01 (decide (C06.DeliveredAll c k))} kind={kd} agree={b01 (agreeB c k)} reads={b01 reads}")
     | none => (g, "bad-op")
   | "GC" :: _ =>
     match runP (do expect "GC"; let i ← nat; let c ← C01.cmd; expect ";;"; let s ← C01.dump 0; pure (i, c, s)) line with
@@ -253,7 +264,7 @@ def gstep (g : GCluster) (line : String) : GCluster × String :=
 def stepAll (d : DState) (line : String) : DState × String :=
   match tokens line with
   | t :: _ =>
-    if t == "GN" || t == "GC" || t == "GV" || t == "GX" || t == "GR" || t == "GA" || t == "GS" || t == "GK" then
+    if t == "GN" || t == "GZ" || t == "GC" || t == "GV" || t == "GX" || t == "GR" || t == "GA" || t == "GS" || t == "GK" then
       let r := gstep d.g line
       ({ d with g := r.1 }, r.2)
     else
